@@ -90,7 +90,7 @@ var noInitPkgs = map[string]bool{
 
 // explicit init() functions that are never executed: the default bootstrap
 // peer list (multiaddr parsing) and protobuf type registration.
-var skipInitInFiles = []string{"/dht_bootstrap.go", ".pb.go"}
+var skipInitInFiles = []string{"/dht_bootstrap.go", ".pb.go", "/core/peer/record.go", "/core/record/envelope.go"}
 
 var stdInitAllow = map[string]bool{
 	"io": true, "context": true, "sort": true, "strings": true, "bytes": true, "bufio": true, "encoding/binary": true,
@@ -792,6 +792,10 @@ func init() {
 		}
 		return wrapK(types.Int, res)
 	}
+	// logging is disabled (the default level): Check returns no entry
+	natives["(*go.uber.org/zap.Logger).Check"] = func(fr *frame, a []value) value { return (*value)(nil) }
+	natives["(*go.uber.org/zap.SugaredLogger).Level"] = nil
+	delete(natives, "(*go.uber.org/zap.SugaredLogger).Level")
 	// ---------------- tracing ----------------
 	startSpan := func(fr *frame, a []value) value {
 		tp := fr.i.prog.ImportedPackage("go.opentelemetry.io/otel/trace")
@@ -806,6 +810,9 @@ func init() {
 	natives["github.com/libp2p/go-libp2p-kad-dht/internal.StartSpan"] = startSpan
 	for _, n := range []string{
 		"github.com/libp2p/go-libp2p-kad-dht/internal.KeyAsAttribute",
+		"github.com/libp2p/go-libp2p-kad-dht/internal.LoggableRecordKeyString",
+		"github.com/libp2p/go-libp2p-kad-dht/internal.LoggableRecordKeyBytes",
+		"github.com/libp2p/go-libp2p-kad-dht/internal.LoggableProviderRecordBytes",
 	} {
 		natives[n] = func(fr *frame, a []value) value { return zeroResults(fr.fn.Signature) }
 	}
